@@ -115,7 +115,7 @@ def run_shard(rec, tier, seed, shard, nshards):
 
         return w
 
-    n_runs = 6 if tier == "quick" else 24
+    n_runs = 9 if tier == "quick" else 36
     with kit.Patches() as P:
         P.wrap(G, "get_combination_at_sorted_index", mk)
         for run in range(n_runs):
